@@ -65,10 +65,10 @@ type c13Chain struct {
 	claimNonces  []*big.Int
 }
 
-func (c *c13Chain) Signing() chain.Signing                        { return c.signing }
-func (c *c13Chain) GetDKGState() (DKGState, error)                { return AwaitingResult, nil }
+func (c *c13Chain) Signing() chain.Signing                         { return c.signing }
+func (c *c13Chain) GetDKGState() (DKGState, error)                 { return AwaitingResult, nil }
 func (c *c13Chain) IsDKGResultValid(*DKGChainResult) (bool, error) { return true, nil }
-func (c *c13Chain) BlockCounter() (chain.BlockCounter, error)     { return c.blocks, nil }
+func (c *c13Chain) BlockCounter() (chain.BlockCounter, error)      { return c.blocks, nil }
 func (c *c13Chain) SubmitDKGResult(r *DKGChainResult) error {
 	c.dkgSubmits = append(c.dkgSubmits, r)
 	return nil
